@@ -56,7 +56,7 @@ MANIFEST = {
         "design_ref": "DESIGN.md 3/C11, docs/sync.md",
     }
 }
-PROPS = ["Nstd.Sync.Props", "Nstd.Sync.PropsDeadline"]
+PROPS = ["Nstd.Sync.Props", "Nstd.Sync.PropsLock", "Nstd.Sync.PropsDeadline"]
 DRIVER = "drv_sync"
 LEAN_TARGETS = PROPS + [DRIVER]
 LIB_SOURCES = ["Mutex", "Semaphore", "Signal", "Monitor", "Thread", "Memory"]
@@ -473,17 +473,190 @@ def translate_poll(repo=None):
     return True, f"Semaphore::wait(timeout) ENOSYS fallback: i = {a}; i < timeout; i += {b} ms, usleep({c} us)"
 
 
+GEN_API = C.LEAN / "Nstd" / "Generated" / "SyncApi.lean"
+
+
+def _method_body(src, head_rx, what):
+    """body (POSIX branch, comments stripped, tokens normalised) of the function whose head matches `head_rx`"""
+    m = re.search(head_rx + r"\s*\{", src)
+    if not m:
+        raise TransErr(what + " not found")
+    depth, i = 1, m.end()
+    while i < len(src) and depth:
+        depth += {"{": 1, "}": -1}.get(src[i], 0)
+        i += 1
+    if depth:
+        raise TransErr(what + ": unbalanced braces")
+    return m, _norm(_posix_branch(src[m.end():i - 1]))
+
+
+def _expect(rx, text, what):
+    m = re.fullmatch(rx, text)
+    if not m:
+        raise TransErr(f"{what}: not of the transcribed form: {text[:140]}")
+    return m
+
+
+def _guard(repo, cls, hdr):
+    """`class Guard` nested in `cls`: which calls on the guarded object do constructor / destructor / wait forward to"""
+    src = _strip_comments((Path(repo) / hdr).read_text())
+    m = re.search(r"\bclass\s+Guard\s*\{", src)
+    if not m:
+        raise TransErr(f"{cls}::Guard not found")
+    depth, i = 1, m.end()
+    while i < len(src) and depth:
+        depth += {"{": 1, "}": -1}.get(src[i], 0)
+        i += 1
+    text = _norm(src[m.end():i - 1])
+    text = re.sub(r"\b(public|private|protected) : ", "", text)
+    ref = re.search(r"\b" + cls + r" & (\w+) ;", text)
+    if not ref:
+        raise TransErr(f"{cls}::Guard: reference member `{cls}& m;` not found")
+    mem = ref.group(1)
+    text = (text[:ref.start()] + text[ref.end():]).strip()
+    out = {}
+
+    def calls(body, names, where):
+        res = []
+        for st in [x.strip() for x in body.split(";") if x.strip()]:
+            mm = re.fullmatch(r"(\w+) \. (lock|unlock|tryLock|set) \( \)", st)
+            if not mm or mm.group(1) not in names:
+                raise TransErr(f"{cls}::Guard {where}: statement is not a call on the guarded object: {st}")
+            res.append(mm.group(2))
+        return res
+    c = re.search(r"\bGuard \( " + cls + r" & (\w+) \) : " + mem + r" \( (\w+) \) \{ ([^{}]*) \}", text)
+    if not c or c.group(1) != c.group(2):
+        raise TransErr(f"{cls}::Guard: constructor `Guard({cls}& x) : {mem}(x) {{...}}` not found")
+    out["Ctor"] = calls(c.group(3), (mem, c.group(1)), "constructor")
+    text = text[:c.start()] + text[c.end():]
+    d = re.search(r"~ Guard \( \) \{ ([^{}]*) \}", text)
+    if not d:
+        raise TransErr(f"{cls}::Guard: destructor not found")
+    out["Dtor"] = calls(d.group(1), (mem,), "destructor")
+    text = (text[:d.start()] + text[d.end():]).strip()
+    if cls == "Monitor":
+        w = re.search(r"\bbool wait \( \) \{ return " + mem + r" \. wait \( \) ; \}", text)
+        if not w:
+            raise TransErr("Monitor::Guard::wait() is not `return m.wait();`")
+        text = text[:w.start()] + text[w.end():]
+        w = re.search(r"\bbool wait \( int64 (\w+) \) \{ return " + mem + r" \. wait \( (\w+) \) ; \}", text)
+        if not w or w.group(1) != w.group(2):
+            raise TransErr("Monitor::Guard::wait(int64 t) is not `return m.wait(t);`")
+        text = text[:w.start()] + text[w.end():]
+        out["Wait"], out["WaitTimeout"] = ["wait"], ["waitTimeout"]
+    if text.strip():
+        raise TransErr(f"{cls}::Guard has members the model does not know: {text.strip()[:100]}")
+    return out
+
+
+def translate_api_facts(repo):
+    """Small facts of the anchored code the model writes down as constants, read from the CURRENT sources (shape-pinned:
+    anything else is refused): what the Guards forward to, constructor initial values / mutex kinds, destructor call lists,
+    the unit conversion of Thread::sleep, and that yield / getCurrentThreadId are plain system calls."""
+    R = Path(repo)
+    f = {}
+    f["mutexGuard"] = _guard(repo, "Mutex", "include/nstd/Mutex.hpp")
+    f["monitorGuard"] = _guard(repo, "Monitor", "include/nstd/Monitor.hpp")
+    mu = _strip_comments((R / "src/Mutex.cpp").read_text())
+    _, b = _method_body(mu, r"\bMutex\s*::\s*Mutex\s*\(\s*\)", "Mutex::Mutex()")
+    m = _expect(r"ASSERT \( [^;]* \) ; pthread_mutexattr_t (\w+) ; pthread_mutexattr_init \( & \1 \) ; pthread_mutexattr_settype \( & \1 , "
+                r"(PTHREAD_MUTEX_\w+) \) ; VERIFY \( pthread_mutex_init \( \( pthread_mutex_t \* \) data , & \1 \) == 0 \) ;", b, "Mutex::Mutex()")
+    if m.group(2) not in ("PTHREAD_MUTEX_RECURSIVE", "PTHREAD_MUTEX_NORMAL", "PTHREAD_MUTEX_DEFAULT", "PTHREAD_MUTEX_ERRORCHECK"):
+        raise TransErr("Mutex::Mutex(): unknown mutex type " + m.group(2))
+    f["mutexRecursive"] = m.group(2) == "PTHREAD_MUTEX_RECURSIVE"
+    _, b = _method_body(mu, r"\bMutex\s*::\s*~\s*Mutex\s*\(\s*\)", "Mutex::~Mutex()")
+    _expect(r"VERIFY \( pthread_mutex_destroy \( \( pthread_mutex_t \* \) data \) == 0 \) ;", b, "Mutex::~Mutex()")
+    si = _strip_comments((R / "src/Signal.cpp").read_text())
+    hm, b = _method_body(si, r"\bSignal\s*::\s*Signal\s*\(\s*bool\s+(\w+)\s*\)", "Signal::Signal(bool)")
+    _expect(r"(ASSERT \( [^;]* \) ; )*pthread_cond_init \( \( pthread_cond_t \* \) cdata , 0 \) ; pthread_mutex_init \( \( pthread_mutex_t \* \) mdata , 0 \) ; "
+            r"signaled = " + re.escape(hm.group(1)) + r" ;", b, "Signal::Signal(bool)")
+    sh = _norm(_strip_comments((R / "include/nstd/Signal.hpp").read_text()))
+    dm = re.search(r"\bSignal \( bool \w+ = (true|false) \) ;", sh)
+    if not dm:
+        raise TransErr("Signal.hpp: `Signal(bool set = <default>);` not found")
+    f["signalDefaultArg"] = dm.group(1) == "true"
+    for cls, srcf in (("Signal", si), ("Monitor", _strip_comments((R / "src/Monitor.cpp").read_text()))):
+        _, b = _method_body(srcf, r"\b" + cls + r"\s*::\s*~\s*" + cls + r"\s*\(\s*\)", f"{cls}::~{cls}()")
+        _expect(r"VERIFY \( pthread_cond_destroy \( \( pthread_cond_t \* \) cdata \) == 0 \) ; VERIFY \( pthread_mutex_destroy \( \( pthread_mutex_t \* \) mdata \) == 0 \) ;",
+                b, f"{cls}::~{cls}()")
+    mo = _strip_comments((R / "src/Monitor.cpp").read_text())
+    hm = re.search(r"\bMonitor\s*::\s*Monitor\s*\(\s*\)\s*:\s*signaled\s*\(\s*(true|false)\s*\)", mo)
+    if not hm:
+        raise TransErr("Monitor::Monitor() : signaled(<bool>) not found")
+    f["monitorInitFlag"] = hm.group(1) == "true"
+    _, b = _method_body(mo, r"\bMonitor\s*::\s*Monitor\s*\(\s*\)\s*:\s*signaled\s*\(\s*\w+\s*\)", "Monitor::Monitor()")
+    _expect(r"(ASSERT \( [^;]* \) ; )*pthread_cond_init \( \( pthread_cond_t \* \) cdata , 0 \) ; pthread_mutex_init \( \( pthread_mutex_t \* \) mdata , 0 \) ;", b, "Monitor::Monitor()")
+    se = _strip_comments((R / "src/Semaphore.cpp").read_text())
+    hm, b = _method_body(se, r"\bSemaphore\s*::\s*Semaphore\s*\(\s*uint\s+(\w+)\s*\)", "Semaphore::Semaphore(uint)")
+    _expect(r"(ASSERT \( [^;]* \) ; )*VERIFY \( sem_init \( \( sem_t \* \) data , 0 , " + re.escape(hm.group(1)) + r" \) != - 1 \) ;", b, "Semaphore::Semaphore(uint)")
+    _, b = _method_body(se, r"\bSemaphore\s*::\s*~\s*Semaphore\s*\(\s*\)", "Semaphore::~Semaphore()")
+    _expect(r"VERIFY \( sem_destroy \( \( sem_t \* \) data \) != - 1 \) ;", b, "Semaphore::~Semaphore()")
+    th = _strip_comments((R / "src/Thread.cpp").read_text())
+    if not re.search(r"\bThread\s*::\s*Thread\s*\(\s*\)\s*:\s*thread\s*\(\s*0\s*\)", th):
+        raise TransErr("Thread::Thread() : thread(0) not found")
+    _, b = _method_body(th, r"\bThread\s*::\s*~\s*Thread\s*\(\s*\)", "Thread::~Thread()")
+    _expect(r"if \( thread \) join \( \) ;", b, "Thread::~Thread()")
+    _, b = _method_body(th, r"\bvoid\s+Thread\s*::\s*yield\s*\(\s*\)", "Thread::yield()")
+    _expect(r"sched_yield \( \) ;", b, "Thread::yield()")
+    _, b = _method_body(th, r"\buint32\s+Thread\s*::\s*getCurrentThreadId\s*\(\s*\)", "Thread::getCurrentThreadId()")
+    _expect(r"return \( uint32 \) syscall \( __NR_gettid \) ;", b, "Thread::getCurrentThreadId()")
+    hm, b = _method_body(th, r"\bvoid\s+Thread\s*::\s*sleep\s*\(\s*int64\s+(\w+)\s*\)", "Thread::sleep(int64)")
+    P = re.escape(hm.group(1))
+    m = re.fullmatch(r"usleep \( (?:" + P + r" \* (?P<a>[0-9* ()]+?)|(?P<b>[0-9* ()]+?) \* " + P + r") \) ;", b)
+    if not m:
+        raise TransErr("Thread::sleep(int64 ms) is not `usleep(ms * <constant>);`: " + b[:100])
+    f["sleepUsPerMs"] = _const_int(m.group("a") or m.group("b"))
+    return f
+
+
+def translate_api(repo=None):
+    try:
+        f = translate_api_facts(repo or C.REPO)
+    except (OSError, TransErr) as e:
+        return False, str(e)
+    B = lambda b: "true" if b else "false"
+    L = lambda l: "[" + ", ".join("." + x for x in l) + "]"
+    g1, g2 = f["mutexGuard"], f["monitorGuard"]
+    out = ("/- generated by tools/areas/sync.py (translate_api) from include/nstd/{Mutex,Monitor,Signal}.hpp, src/{Mutex,Signal,Monitor,Semaphore,Thread}.cpp - do not edit -/\n"
+           "namespace Nstd.Generated.SyncApi\n\n"
+           "/-- a call a Guard member forwards to the guarded object -/\n"
+           "inductive Call | lock | tryLock | unlock | set | wait | waitTimeout\nderiving DecidableEq, Repr\n\n"
+           "/-- `Mutex::Guard`: the calls on the guarded Mutex made by the constructor / the destructor, in order -/\n"
+           f"def mutexGuardCtor : List Call := {L(g1['Ctor'])}\ndef mutexGuardDtor : List Call := {L(g1['Dtor'])}\n\n"
+           "/-- `Monitor::Guard`: constructor, destructor, `wait()` and `wait(timeout)` (each returns the result of its last call) -/\n"
+           f"def monitorGuardCtor : List Call := {L(g2['Ctor'])}\ndef monitorGuardDtor : List Call := {L(g2['Dtor'])}\n"
+           f"def monitorGuardWait : List Call := {L(g2['Wait'])}\ndef monitorGuardWaitTimeout : List Call := {L(g2['WaitTimeout'])}\n\n"
+           "/-- `Mutex::Mutex()` initialises its pthread mutex with the attribute PTHREAD_MUTEX_RECURSIVE -/\n"
+           f"def mutexRecursive : Bool := {B(f['mutexRecursive'])}\n\n"
+           "/-- `Signal::Signal(bool set)`: `signaled = set` (the flag starts as the argument), default argument; internal mutex: default attributes -/\n"
+           "def signalInitFlag (set : Bool) : Bool := set\n"
+           f"def signalDefaultArg : Bool := {B(f['signalDefaultArg'])}\n\n"
+           "/-- `Monitor::Monitor() : signaled(...)`; internal mutex: default attributes (not recursive) -/\n"
+           f"def monitorInitFlag : Bool := {B(f['monitorInitFlag'])}\n\n"
+           "/-- `Semaphore::Semaphore(uint value)`: `sem_init(data, 0, value)` -/\n"
+           "def semInitCount (value : Nat) : Nat := value\n\n"
+           "/-- `Thread::sleep(int64 ms)`: `usleep(ms * sleepUsPerMs)` -/\n"
+           f"def sleepUsPerMs : Nat := {f['sleepUsPerMs']}\n\n"
+           "end Nstd.Generated.SyncApi\n")
+    GEN_API.parent.mkdir(parents=True, exist_ok=True)
+    if not GEN_API.exists() or GEN_API.read_text() != out:
+        GEN_API.write_text(out)
+    return True, (f"Mutex::Guard {g1['Ctor']}/{g1['Dtor']}, Monitor::Guard {g2['Ctor']}/{g2['Dtor']}/{g2['Wait']}/{g2['WaitTimeout']}, "
+                  f"Mutex recursive={f['mutexRecursive']}, Monitor flag0={f['monitorInitFlag']}, sleep x{f['sleepUsPerMs']}; constructors / destructors / yield / getCurrentThreadId shape-pinned")
+
+
 def gen(ctx):
     parts = [("deadline arithmetic of the timed waits -> Nstd/Generated/SyncDeadline.lean: ", translate()),
              ("order of Monitor::set -> Nstd/Generated/SyncMonitorOrder.lean: ", translate_order()),
-             ("shape and constants of the sem_timedwait loop + ENOSYS polling loop -> Nstd/Generated/SyncSemPoll.lean: ", translate_poll())]
+             ("shape and constants of the sem_timedwait loop + ENOSYS polling loop -> Nstd/Generated/SyncSemPoll.lean: ", translate_poll()),
+             ("Guards, constructors, destructors, Thread::sleep/yield/getCurrentThreadId -> Nstd/Generated/SyncApi.lean: ", translate_api())]
     if ctx is not None:
         ctx.cov["translated"] = "; ".join(h + m for h, (o, m) in parts)
     return all(o for _, (o, _) in parts), "; ".join(m for _, (o, m) in parts if not o)
 
 
 def setup():
-    for ok, msg in (translate(), translate_order(), translate_poll()):
+    for ok, msg in (translate(), translate_order(), translate_poll(), translate_api()):
         if not ok:
             print("sync translate:", msg)
 
